@@ -18,8 +18,7 @@ def _src_fields(t, src):
             and not x[0][1:].isdigit()}
 
 
-def run(ctx):
-    R = "C01.8"
+def run(ctx, R="C01.8"):
     fb = ctx.fb
     for ty, src, special in (
             ("OwnedSpendConditions", "spend", {"create_coin": "loop", "fingerprint": "gated"}),
@@ -57,6 +56,21 @@ def run(ctx):
                 else:
                     if not (used == set() and sp in str(v)):
                         bad.append("%s.%s should be %s, is %s" % (ty, f, sp, str(v)[:80]))
+        # the list-valued fields are produced by walking the *whole* source collection: the element source of every loop is
+        # next(into_iter(src.field)) with no adaptor in between (take / skip / filter / step_by would drop elements while the
+        # totals still cover them)
+        its = set()
+        for ev, ex in P.enumerate_paths(b):
+            if ex[0] != "return":
+                continue
+            for x in subterms(apnf.N(P.ret_of(ev))):
+                if isinstance(x, tuple) and x and x[0] == "next":
+                    its.add(str(x))
+        loops = sorted(f for f, sp in special.items() if sp == "loop")
+        want_its = {str(("next", ("into_iter", ("." + f, src)))) for f in loops}
+        ctx.ob(R, "whole-collection:" + ty, its == want_its,
+               "%s walks %s completely (element source = next(into_iter(field)), no adaptor)" % (ty, ", ".join(loops)),
+               found=sorted(its ^ want_its)[:3] or None, where=b.fn.sp)
         ctx.ob(R, "fields:" + ty, not bad and n >= 2, "every field of %s is derived from the same-named source field on all %d paths" % (ty, n),
                found=sorted(set(bad))[:5], where=b.fn.sp)
     # element conversions keep position and pairing
